@@ -202,11 +202,15 @@ func (g *gen) num(d int, leaf bool) string {
 		return g.pick([]string{"abs", "ceil", "floor", "sqrt", "round", "roundBank", "log", "ln"}) + "(" + e(tNum) + ")"
 	case 7:
 		n := 1 + g.s.Intn(3)
+		if g.s.Intn(6) == 0 {
+			n = 5 + g.s.Intn(8)
+		}
 		var as []string
 		for i := 0; i < n; i++ {
 			as = append(as, e(tNum))
 		}
-		return g.pick([]string{"max", "min"}) + "(" + strings.Join(as, ", ") + ")"
+		// sometimes a parenthesised callee, sometimes another spelling of the name (which may be a data field)
+		return g.pick([]string{"max", "min", "max", "min", "(max)", "((min))", "Max", "MIN"}) + "(" + strings.Join(as, ", ") + ")"
 	case 8:
 		return "len(" + e(tStr) + ")"
 	case 9:
@@ -239,8 +243,13 @@ func (g *gen) num(d int, leaf bool) string {
 		}
 		return g.numLit()
 	case 19:
-		if g.s.Intn(2) == 0 { // spread of an array literal
+		switch g.s.Intn(4) {
+		case 0: // spread of an array literal
 			return "max([" + e(tNum) + ", " + g.numLit() + "]...)"
+		case 1: // spread of a long list
+			return g.pick([]string{"max", "min"}) + "(an2...)"
+		case 2:
+			return "max([1, 2, 3, 4, 5, 6, 7, 8, 9, " + e(tNum) + ", 11]...)"
 		}
 		return "max(an1...)"
 	case 20:
@@ -399,7 +408,7 @@ func (g *gen) tim(d int, leaf bool) string {
 
 func (g *gen) any(d int, leaf bool) string {
 	if leaf {
-		return g.pick([]string{"null", "z1", "this.s1", "o1", "o1.c", "nope", "nope.x", "l1", "st1", "1", "'s'", "true", "$a", "ctx", "m1"})
+		return g.pick([]string{"Max", "Len", "null", "z1", "this.s1", "o1", "o1.c", "nope", "nope.x", "l1", "st1", "1", "'s'", "true", "$a", "ctx", "m1"})
 	}
 	e := func(t int) string { return g.expr(t, d+1) }
 	switch g.s.Intn(14) {
@@ -577,6 +586,11 @@ func (d dataSpec) build(log *hostLog, loc *time.Location) map[string]interface{}
 		"as1": []string{"a", "b", strs[(d.Nums[3]+1000)%len(strs)]},
 		"an1": []interface{}{d.num(1), d.num(2), decimal.New(int64(d.Nums[3]), 1)},
 		"st1": simpleStruct{N: d.Nums[0], S: "st", F: 1.5},
+		"an2": []interface{}{d.num(0), d.num(1), d.num(2), d.num(3), d.num(4), d.num(5), d.num(6), d.num(7), d.num(0), d.num(2), d.num(4), d.num(6)},
+	}
+	if d.Flags[2]%2 == 0 { // fields whose names differ from a builtin's only in case
+		m["Max"] = d.num(1)
+		m["Len"] = strs[(d.Nums[1]+1000)%len(strs)]
 	}
 	if d.Flags[1]%2 == 1 { // the same name holds another struct type in about half of the data maps
 		m["st1"] = otherStruct{N: d.Nums[0], S: "st", F: 1.5, Pad: true}
